@@ -78,6 +78,26 @@ def download(chk, F):
                "persist only after the downloaded temp file parsed as JSON to its end",
                "the downloaded body is not validated before it replaces the cache: a 200 response without Content-Length that is cut after k bytes "
                "(or a captive-portal page) is renamed over the previous file")
+    # ... and it is validated as *what the loader will read*: Context::load_currency deserialises the file as a list of
+    # definitions.  Complete JSON of another shape (`{"error":"rate limited"}`, `[]`, `null` with status 200) would otherwise
+    # replace a good cache, and the next start has no currencies for a whole cache period.
+    def target_type(f, suffixes):
+        out = []
+        for bb, t in f.calls():
+            if "callee" in t and t["callee"]["path"].endswith(suffixes):
+                ga = t["callee"].get("gargs") or []
+                if ga:
+                    out.append(ga[-1].replace("rink_core::", ""))
+        return out
+    lc = F.find("rink_core", "loader::context::Context::load_currency")
+    want = target_type(lc, ("serde_json::de::from_str", "serde_json::de::from_slice", "serde_json::de::from_reader"))
+    got = target_type(fn, ("serde_json::de::from_reader", "serde_json::de::from_slice", "serde_json::de::from_str"))
+    if len(want) != 1:
+        raise AnchorLost("load_currency: expected one serde_json parse of the live data, found %s" % want)
+    chk.decide(okv and want[0] in got, "persist-gates", FK, "body-is-what-the-loader-reads", where,
+               "the body is validated as %s, the type load_currency reads" % want[0],
+               "the body is validated as %s but load_currency reads %s: a 200 reply with other JSON (`{\"error\":\"rate limited\"}`, `[]`, `null`) "
+               "replaces a good cache and `1 BTC to USD` is \"No such unit BTC\" until the cache expires" % (got or "nothing", want[0]))
     # status == 200
     ok200 = False
     for g in guards:
